@@ -10,3 +10,23 @@ pub mod solve;
 
 pub use fixed_point::Cache;
 pub use recursive::RecursiveSolver;
+
+/// Verification hook (add-only; compiled only with `--cfg chalk_verif`).
+#[cfg(chalk_verif)]
+pub mod verif {
+    use chalk_ir::interner::Interner;
+    use chalk_ir::{ClausePriority, DomainGoal};
+    use chalk_solve::Solution;
+
+    /// `combine::with_priorities`
+    pub fn with_priorities<I: Interner>(
+        interner: I,
+        domain_goal: &DomainGoal<I>,
+        a: Solution<I>,
+        prio_a: ClausePriority,
+        b: Solution<I>,
+        prio_b: ClausePriority,
+    ) -> (Solution<I>, ClausePriority) {
+        crate::combine::with_priorities(interner, domain_goal, a, prio_a, b, prio_b)
+    }
+}
